@@ -29,7 +29,7 @@ ASSUMPTIONS = [
     "differing dimension order without align: an exception of any type or a label-wise correct result are both accepted (statement: 'reordered by name or refused')",
     "order of aligned (outer-join) secondary labels is not asserted unless sort=True",
 ]
-MANDATORY = ["inputs:joined-before-under-other-labels", "dtype-checked:i", "dtype-checked:f", "stack", "concatenate", "secondary:permuted", "secondary:differs", "secondary:single-label-differs", "dimorder:differs", "square",
+MANDATORY = ["call:positional", "inputs:joined-before-under-other-labels", "dtype-checked:i", "dtype-checked:f", "stack", "concatenate", "secondary:permuted", "secondary:differs", "secondary:single-label-differs", "dimorder:differs", "square",
              "align:True", "align:True+sort", "input:dict", "keys:str", "expected-ValueError", "concat:axis-not-first"]
 
 
@@ -100,7 +100,7 @@ def join_case(draw):
         keys_kind = "str"
     align = draw(st.sampled_from([False, False, True]))
     return {"func": func, "specs": specs, "cdim": cdim, "caxis_form": draw(st.sampled_from(["name", "pos"])), "keys": keys_kind,
-            "container": container, "align": align, "sort": draw(st.booleans()) if align else False, "newaxis": "stk", "rehearse": draw(st.integers(0, 3)) == 0}
+            "container": container, "align": align, "sort": draw(st.booleans()) if align else False, "newaxis": "stk", "rehearse": draw(st.integers(0, 3)) == 0, "positional": draw(st.integers(0, 2)) == 0}
 
 
 def strategy(tier):
@@ -235,6 +235,10 @@ def run_case(case):
             else:
                 call = lambda: da.stack(cont, axis=case["newaxis"], keys=list(keys), **kw)
                 exp_keys = keys
+                if case.get("positional") and not sort:
+                    # the documented parameter order stack(arrays, axis, keys, align), given by position
+                    call = lambda: da.stack(cont, case["newaxis"], list(keys), bool(align))
+                    cl.add("call:positional")
         if keys and isinstance(keys[0], str):
             cl.add("keys:str")
         what = "stack(%s, keys=%s, %s)" % (core.jsonable([{"dims": s["dims"], "labels": s["labels"]} for s in specs]), exp_keys, kw)
@@ -298,6 +302,9 @@ def run_case(case):
         axis = cdim if case["caxis_form"] == "name" else pos
         cont = list(arrays) if case["container"] != "tuple" else tuple(arrays)
         call = lambda: da.concatenate(cont, axis=axis, **kw)
+        if case.get("positional") and not kw:
+            call = lambda: da.concatenate(cont, axis)          # axis by position
+            cl.add("call:positional")
         what = "concatenate(%s, axis=%r, %s)" % (core.jsonable([{"dims": s["dims"], "labels": s["labels"]} for s in specs]), axis, kw)
         if not align and status == "differs":
             cl.add("expected-ValueError")
